@@ -1,11 +1,15 @@
 #!/usr/bin/env python3
 """Regenerates /verif/MANIFEST.json from the table below (one entry per claimed check)."""
 import json, os
-CHECKS = {
- "C19": dict(cat="model_checking", tech="explicit-state exploration of derivation trees on the real config types (exhaustive to depth d) + state invariant + functional reference",
-   text="Every derivation tree of With.../Instantiate calls up to the depth bound (any op applied to ANY existing node) is executed on the real ModuleConfig/FSConfig/RuntimeConfig; in every state the deep snapshot of every node equals its snapshot at creation, and at the leaves a WASI guest instantiated with each node observes exactly what a persistent functional reference predicts. Exhaustive within alphabet and depth; three env keys force cap>len slice collisions.",
-   note="Trusts reflection-based deep snapshot (pointers outside wazero packages and the CompilationCache are compared by identity). Bound: depth 3 quick / 4-5 thorough over a 30/11/15-op alphabet.", ref="2.C19"),
-}
+import glob
+CHECKS = {}
+FINDINGS = []
+for f in sorted(glob.glob("/verif/checks/*/manifest.json")):
+    pid = os.path.basename(os.path.dirname(f)).upper()
+    CHECKS[pid] = json.load(open(f))
+for f in sorted(glob.glob("/verif/checks/*/findings.json")):
+    FINDINGS += json.load(open(f))
+json.dump(FINDINGS, open("/verif/known_findings.json", "w"), indent=1)
 PENDING_REASON = "no check built yet in this session; planned as bounded-exhaustive exploration in DESIGN.md section 2 (not a statement that model checking cannot apply)"
 props = [json.loads(l)["id"] for l in open("/verif/properties.jsonl")]
 checks = []
